@@ -323,7 +323,7 @@ class Caller:
 class Harness:
     K_UNKNOWN = 100
 
-    def __init__(self, kinds, values, stream, fail_values=(), server=False):
+    def __init__(self, kinds, values, stream, fail_values=(), server=False, apply_path=False):
         """kinds: caller kinds; values: list of python values usable as bodies;
         stream: list of (id:int, body:'close'|int index into values) making the inbound byte string"""
         import klongpy.sys_fn_ipc as ipc
@@ -335,6 +335,7 @@ class Harness:
         self.checkpoints = []       # (index into labels, real digest)
         self.notes = []             # harness-level anomalies (tie problems, not property failures)
         self.wr_broken = False
+        self.apply_path = bool(apply_path)
         self.duplex = bool(server)  # a real server-side NetworkClient answers instead of a stream
         self.server_closed = False
         self.unanswered_blocked = []
@@ -565,7 +566,12 @@ class Harness:
     def _caller_main(self, c):
         self.tls.caller = c
         try:
-            if c.kind in CALL_KINDS:
+            if c.kind in CALL_KINDS and self.apply_path:
+                # the Klong application path `f(x)`: NetworkClient.__call__(klong, ctx)
+                from klongpy.core import reserved_fn_args, reserved_fn_symbol_map
+                ctx = {reserved_fn_symbol_map[reserved_fn_args[0]]: self.request_of(c)}
+                c.result = ("ok", self.nc(self.klong, ctx))
+            elif c.kind in CALL_KINDS:
                 c.result = ("ok", self.nc.call(self.request_of(c)))
             elif c.kind == "close":
                 self.nc.close()
@@ -991,6 +997,8 @@ class Harness:
             return "noop"
         if r[0] == "abort":
             return "abort"
+        if r[0] == "ok" and isinstance(r[1], BaseException):
+            return "value:exception:" + type(r[1]).__name__     # an exception handed back as the answer
         if r[0] == "ok":
             if c.kind not in CALL_KINDS:
                 return "ok:" + show_bytes(self.close_body)
